@@ -1,4 +1,5 @@
 import CifModel.Lemmas.Names
+import CifModel.Lemmas.NamesEntry
 /-
   Property C09 — codes, data names and table keys are matched by normalised equivalence.
 
@@ -115,6 +116,117 @@ theorem C09_table_keys (U : UnicodeOps) {α : Type} (invalid noSuch : Code) (es 
         simp [Entries.get, normalizeTableIndex, hk', this]
       · simp [Entries.keys]
 
+/-- **C09, the enumeration after `set` (tables).**  `KeyedBy U.nfc es` is the invariant of a table — NFC forms pairwise different, each
+    the NFC of the spelling kept with it; it holds of the empty table and is preserved by `set` and `remove` (first conjunct and
+    `C09_map_invariant`).  After `set key v`: the enumeration is the old one with the spelling of the matching entry REPLACED by
+    `key` (or `key` appended when there was none); `key` is enumerated; NO OTHER spelling canonically equivalent to `key` is
+    (every enumerated `k'` with `NFC k' = NFC key` is `key` itself); exactly one entry has that normal form; spellings that are
+    not equivalent to `key` are enumerated exactly as before. -/
+theorem C09_table_enumeration (U : UnicodeOps) {α : Type} (invalid : Code) (es es' : Entries α) (key : Str) (v : α)
+    (hinv : KeyedBy U.nfc es) (hset : es.set (fun n => normalizeTableIndex U n invalid) key v = .ok es') :
+    KeyedBy U.nfc es' ∧
+    es'.keys = (if (es.find (U.nfc key)).isSome then es.map (fun e => if e.1 == U.nfc key then key else e.2.1) else es.keys ++ [key]) ∧
+    key ∈ es'.keys ∧
+    (∀ k' ∈ es'.keys, U.nfc k' = U.nfc key → k' = key) ∧
+    (es'.filter (fun e => e.1 == U.nfc key)).length = 1 ∧
+    (∀ k', U.nfc k' ≠ U.nfc key → (k' ∈ es'.keys ↔ k' ∈ es.keys)) := by
+  have hn : (fun n => normalizeTableIndex U n invalid) (some key) = .ok (U.nfc key) := by
+    rcases tableNorm_eq U key invalid with ⟨h, _⟩ | ⟨h, _⟩
+    · simp only [Entries.set, h] at hset; cases hset
+    · exact h
+  exact set_keyed U.nfc _ es es' key v hn hinv hset
+
+/-- **C09, packet item names** (`cif_packet_set_item` / `get_item` / `get_names`: the same map with `cif_normalize_item_name` as
+    its normaliser).  For valid data names: after `set name v`, a look-up under `name'` finds `v` iff `cif_normalize name' =
+    cif_normalize name` (case-insensitive, canonical equivalence) and otherwise what it found before; and the names are
+    enumerated as `C09_table_enumeration` says, with `cif_normalize` in the place of NFC: the spelling just used replaces the
+    old one, no other equivalent spelling remains, exactly one entry per normalised name. -/
+theorem C09_packet_names (U : UnicodeOps) {α : Type} (es es' : Entries α) (name name' : Str) (v : α)
+    (hv : isValidName true name = true) (hv' : isValidName true name' = true) (hinv : KeyedBy (cifNormalize U) es)
+    (hset : es.set (fun n => normalizeItemName U n Gen.ErrCodes.CIF_INVALID_ITEMNAME) name v = .ok es') :
+    (cifNormalize U name' = cifNormalize U name →
+      es'.get (fun n => normalizeItemName U n Gen.ErrCodes.CIF_NOSUCH_ITEM) name' Gen.ErrCodes.CIF_NOSUCH_ITEM = .ok v) ∧
+    (cifNormalize U name' ≠ cifNormalize U name →
+      es'.get (fun n => normalizeItemName U n Gen.ErrCodes.CIF_NOSUCH_ITEM) name' Gen.ErrCodes.CIF_NOSUCH_ITEM
+        = es.get (fun n => normalizeItemName U n Gen.ErrCodes.CIF_NOSUCH_ITEM) name' Gen.ErrCodes.CIF_NOSUCH_ITEM) ∧
+    KeyedBy (cifNormalize U) es' ∧ name ∈ es'.keys ∧
+    (∀ n ∈ es'.keys, cifNormalize U n = cifNormalize U name → n = name) ∧
+    (es'.filter (fun e => e.1 == cifNormalize U name)).length = 1 ∧
+    (∀ n, cifNormalize U n ≠ cifNormalize U name → (n ∈ es'.keys ↔ n ∈ es.keys)) := by
+  have hn : (fun n => normalizeItemName U n Gen.ErrCodes.CIF_INVALID_ITEMNAME) (some name) = .ok (cifNormalize U name) := by
+    simp [normalizeItemName, hv]
+  have hn' : (fun n => normalizeItemName U n Gen.ErrCodes.CIF_NOSUCH_ITEM) (some name') = .ok (cifNormalize U name') := by
+    simp [normalizeItemName, hv']
+  obtain ⟨g1, g2, _⟩ := get_after_set (fun n => normalizeItemName U n Gen.ErrCodes.CIF_INVALID_ITEMNAME)
+    (fun n => normalizeItemName U n Gen.ErrCodes.CIF_NOSUCH_ITEM) es es' name name' _ _ v Gen.ErrCodes.CIF_NOSUCH_ITEM hn hn' hset
+  obtain ⟨k1, _, k3, k4, k5, k6⟩ := set_keyed (cifNormalize U) _ es es' name v hn hinv hset
+  exact ⟨g1, g2, k1, k3, k4, k5, k6⟩
+
+/-- the invariant `KeyedBy` holds of the empty map and is preserved by `set` and by `remove`, for every normaliser whose successful
+    answers are the normal form `nf` — hence of every table / packet built through the API -/
+theorem C09_map_invariant {α : Type} (nf : Str → Str) (norm : Option Str → Except Code Str)
+    (hnorm : ∀ k r, norm (some k) = .ok r → r = nf k) :
+    KeyedBy nf ([] : Entries α) ∧
+    (∀ (es es' : Entries α) key v, KeyedBy nf es → es.set norm key v = .ok es' → KeyedBy nf es') ∧
+    (∀ (es es' : Entries α) key c, KeyedBy nf es → es.remove norm key c = .ok es' → KeyedBy nf es') := by
+  refine ⟨KeyedBy.nil nf, ?_, fun es es' key c h hr => remove_keyed nf norm es es' key c h hr⟩
+  intro es es' key v h hs
+  cases hn : norm (some key) with
+  | error c => simp only [Entries.set, hn] at hs; cases hs
+  | ok r =>
+    have := hnorm key r hn
+    subst this
+    exact (set_keyed nf norm es es' key v hn h hs).1
+
+/-- **C09, which INVALID_* code each entry point returns** — against the models of the entry points themselves (store: group gF's
+    Model/Store.lean; tables and packets: group gC's Model/Value.lean), with the name argument built from the spelling by the
+    models of utils.c (`apiName`, `tableNorm`, `itemNorm`): an invalid block code → CIF_INVALID_BLOCKCODE from cif_create_block;
+    an invalid frame code → CIF_INVALID_FRAMECODE from cif_container_create_frame and cif_container_get_frame; an invalid data name
+    → CIF_INVALID_ITEMNAME from cif_container_create_loop (any position in the name list), cif_container_set_value,
+    cif_loop_add_item, cif_packet_set_item, cif_packet_create, and CIF_NOSUCH_ITEM from the look-ups (get_value, get_item_loop,
+    remove_item, packet get / remove); a table key with a disallowed character → CIF_INVALID_INDEX from set_item_by_key and
+    CIF_NOSUCH_ITEM from get / remove.  In every case the store / table / packet is unchanged. -/
+theorem C09_code_table (U : UnicodeOps) (s : Store.Store) (h : Store.CH) (l : Store.LH) (code name key : Str)
+    (hc : isValidName false code = false) (hn : isValidName true name = false) (hk : hasDisallowed key = true) :
+    Store.createBlock s (some (apiName U false code)) = (s, .error Gen.ErrCodes.CIF_INVALID_BLOCKCODE) ∧
+    Store.createFrame s h (some (apiName U false code)) = (s, .error Gen.ErrCodes.CIF_INVALID_FRAMECODE) ∧
+    Store.getFrame s h (some (apiName U false code)) = (s, .error Gen.ErrCodes.CIF_INVALID_FRAMECODE) ∧
+    (∀ cat pre post, Store.createLoop s h cat (pre ++ apiName U true name :: post) = (s, .error Gen.ErrCodes.CIF_INVALID_ITEMNAME)) ∧
+    (∀ v, Store.setValue s h (some (apiName U true name)) v = (s, .error Gen.ErrCodes.CIF_INVALID_ITEMNAME)) ∧
+    (∀ v, Store.addItem s l (some (apiName U true name)) v = (s, .error Gen.ErrCodes.CIF_INVALID_ITEMNAME)) ∧
+    Store.getValue s h (some (apiName U true name)) = (s, .error Gen.ErrCodes.CIF_NOSUCH_ITEM) ∧
+    Store.getItemLoop s h (some (apiName U true name)) = (s, .error Gen.ErrCodes.CIF_NOSUCH_ITEM) ∧
+    Store.removeItem s h (some (apiName U true name)) = (s, .error Gen.ErrCodes.CIF_NOSUCH_ITEM) ∧
+    (∀ p x, Value.packetSet (itemNorm U) p name x = .error Value.INVALID_ITEMNAME) ∧
+    (∀ pre post, Value.packetCreate (itemNorm U) (pre ++ name :: post) = .error Value.INVALID_ITEMNAME) ∧
+    (∀ p, Value.packetGet (itemNorm U) p name = .error Value.NOSUCH_ITEM) ∧
+    (∀ es x, Value.tableSet (tableNorm U) (.tbl es) key x = .error Value.INVALID_INDEX) ∧
+    (∀ es, Value.tableGet (tableNorm U) (.tbl es) key = .error Value.NOSUCH_ITEM) ∧
+    Value.INVALID_ITEMNAME = Gen.ErrCodes.CIF_INVALID_ITEMNAME ∧ Value.INVALID_INDEX = Gen.ErrCodes.CIF_INVALID_INDEX ∧
+    Value.NOSUCH_ITEM = Gen.ErrCodes.CIF_NOSUCH_ITEM := by
+  have hin : itemNorm U name = none := by simp [itemNorm, hn]
+  have htn : tableNorm U key = none := by simp [tableNorm, hk]
+  refine ⟨?_, ?_, ?_, ?_, ?_, ?_, ?_, ?_, ?_, ?_, ?_, ?_, ?_, ?_, rfl, rfl, rfl⟩
+  · simp [Store.createBlock, apiName, hc]
+  · simp [Store.createFrame, apiName, hc]
+  · simp [Store.getFrame, apiName, hc]
+  · intro cat pre post; simp [Store.createLoop, apiName, hn]
+  · intro v; simp [Store.setValue, apiName, hn]
+  · intro v; simp [Store.addItem, apiName, hn]
+  · simp [Store.getValue, apiName, hn]
+  · simp [Store.getItemLoop, apiName, hn]
+  · simp [Store.removeItem, apiName, hn]
+  · intro p x; simp [Value.packetSet, hin]
+  · intro pre post
+    induction pre with
+    | nil => simp [Value.packetCreate, hin]
+    | cons a r ih =>
+      simp only [List.cons_append, Value.packetCreate, ih]
+      cases itemNorm U a <;> rfl
+  · intro p; simp [Value.packetGet, hin]
+  · intro es x; simp [Value.tableSet, htn]
+  · intro es; simp [Value.tableGet, htn]
+
 /-- table keys are matched without case folding: two keys match iff their NFC forms coincide, whatever `fold` does -/
 theorem C09_table_keys_case_significant (U : UnicodeOps) (code : Code) (k k' : Str)
     (h : hasDisallowed k = false) (h' : hasDisallowed k' = false) :
@@ -151,5 +263,16 @@ example : cifNormalize toyU [95, 65] = cifNormalize toyU [95, 97] := by decide
 example : isValidName true [95, 65] = true ∧ isValidName true [95, 0x85] = false ∧ isValidName false [] = false := by decide
 example : isValidName true [95, 0xd83f, 0xdffe] = false ∧ isValidName true [95, 0xd83f, 0xdffd] = true ∧ isValidName true [95, 0xd800] = false := by decide
 example : validName true [95, 0xd83f, 0xdffd] := (C09_validity true _ (by decide)).1 (by decide)
+
+/-- enumeration: a `UnicodeOps` whose NFC composes `A ´` to `Á`; set under `A ´`, then under `Á`: ONE key is enumerated, the later
+    spelling; the hypotheses of `C09_table_enumeration` hold along the way -/
+def composeU : UnicodeOps := { nfd := id, fold := id, nfc := fun s => if s = [65, 769] then [193] else s }
+def tab1 : Entries Nat := [([193], [65, 769], 1), ([98], [98], 7)]
+example : KeyedBy composeU.nfc tab1 := ⟨by decide, by intro e he; simp [tab1] at he; rcases he with rfl | rfl <;> rfl⟩
+example : tab1.set (fun n => normalizeTableIndex composeU n 73) [193] 2 = .ok [([193], [193], 2), ([98], [98], 7)] := by rfl
+example : Entries.keys ([([193], [193], 2), ([98], [98], 7)] : Entries Nat) = [[193], [98]] := rfl
+example : ∀ k' ∈ Entries.keys ([([193], [193], 2), ([98], [98], 7)] : Entries Nat), composeU.nfc k' = composeU.nfc [193] → k' = [193] :=
+  (C09_table_enumeration composeU 73 tab1 _ [193] 2 ⟨by decide, by intro e he; simp [tab1] at he; rcases he with rfl | rfl <;> rfl⟩ (by rfl)).2.2.2.1
+example : isValidName false [97, 32] = false ∧ isValidName true [97] = false ∧ hasDisallowed [1] = true := by decide
 
 end CifModel
